@@ -1,7 +1,7 @@
 (* C12 - every commit is counted once and line statistics conserve lines.
    Only statements closed by [exact] and their assumptions; the model is coq/theories/LineStats/Model.v. *)
 From Coq Require Import List NArith ZArith Bool.
-From Herc Require Import LineStats.Model LineStats.Conserve LineStats.Once.
+From Herc Require Import LineStats.Model LineStats.Conserve LineStats.Once LineStats.Totals LineStats.Oracle.
 Import ListNotations.
 Open Scope N_scope.
 
@@ -73,12 +73,42 @@ Theorem C12_once_counters : forall (cec : bool) (l : list step) (k : N * N),
 Proof. exact devs_commits_counter. Qed.
 Print Assumptions C12_once_counters.
 
+(* the executable judgement the replay driver applies to the implementation's Commits counters (bounds per
+   (tick, developer) computed from the replay sequence alone) accepts the model's result on every
+   replay sequence satisfying replay_ok *)
+Theorem C12_once_oracle : forall (cec : bool) (l : list step), replay_ok l = true ->
+  once_ok cec l (map (fun e => (fst e, dt_commits (snd e))) (devs_result cec l)) = true.
+Proof. exact once_ok_model. Qed.
+Print Assumptions C12_once_oracle.
+
 (* ---- the per-commit listing = the commits replayed on a single branch, each once ----------------- *)
 Theorem C12_listing : forall l : list step, replay_ok l = true ->
   NoDup (map cs_commit (commits_run l)) /\
   (forall c, In c (map cs_commit (commits_run l)) <-> count_commit c l = 1).
 Proof. exact commits_listing. Qed.
 Print Assumptions C12_listing.
+
+(* ---- conservation end to end on the model ---------------------------------------------------------
+   In DevsResult, at every (tick, developer): added + changed = lines inserted and removed + changed =
+   lines deleted by the diffs of the NON-MERGE steps attributed there (merge replays contribute nothing),
+   provided the scripts have no two neighbouring deletions (C11) and every entry is named once (C20). *)
+Theorem C12_devs_lines : forall (cec : bool) (l : list step) (k : N * N),
+  (forall s, In s l -> s_ismerge s = false ->
+     forallb ch_ok (s_changes s) && keys_distinct [] (s_changes s) = true) ->
+  ins_at (devs_result cec l) k =
+    sum_over (fun s => if s_ismerge s then 0 else step_inserted s) (filter (at_key k) (attributed cec l)) /\
+  del_at (devs_result cec l) k =
+    sum_over (fun s => if s_ismerge s then 0 else step_deleted s) (filter (at_key k) (attributed cec l)).
+Proof. exact devs_lines_conserve. Qed.
+Print Assumptions C12_devs_lines.
+
+(* every entry of CommitsResult is a non-merge step, with conserving figures *)
+Theorem C12_listing_lines : forall (l : list step) (cs : commit_stat), In cs (commits_run l) ->
+  exists s, In s l /\ s_ismerge s = false /\ cs_commit cs = s_commit s /\ cs_author cs = s_author s /\
+    (forallb ch_ok (s_changes s) && keys_distinct [] (s_changes s) = true ->
+     sum_ins (cs_files cs) = step_inserted s /\ sum_del (cs_files cs) = step_deleted s).
+Proof. exact commits_lines_conserve. Qed.
+Print Assumptions C12_listing_lines.
 
 (* ---- non-vacuity -------------------------------------------------------------------------------- *)
 (* a canonical script with a changed block, a pure deletion and a pure insertion *)
@@ -104,7 +134,14 @@ Example C12_ex_replay :
   map s_commit (attributed true ex_steps) = [0; 1; 2; 3; 4] /\
   map cs_commit (commits_run ex_steps) = [0; 1; 2; 4] /\
   commits_at (devs_result true ex_steps) (2, 1) = 1 /\
-  forallb (fun e => langs_sum_ok (snd e)) (devs_result true ex_steps) = true.
+  forallb (fun s => s_ismerge s || step_wf s) ex_steps = true /\
+  ins_at (devs_result true ex_steps) (0, 1) = 2 /\ del_at (devs_result true ex_steps) (0, 1) = 1 /\
+  forallb (fun e => langs_sum_ok (snd e)) (devs_result true ex_steps) = true /\
+  once_ok false ex_steps [((0, 0), 1); ((0, 1), 1); ((3, 0), 1)] = true /\
+  once_ok false ex_steps [((0, 0), 1); ((0, 1), 1); ((3, 0), 1); ((2, 1), 1)] = true /\
+  once_ok false ex_steps [((0, 0), 1); ((0, 1), 1); ((3, 0), 1); ((2, 1), 1); ((3, 1), 1)] = false /\
+  once_ok false ex_steps [((0, 0), 1); ((0, 1), 2); ((3, 0), 1)] = false /\
+  once_ok true ex_steps [((0, 0), 1); ((0, 1), 1); ((3, 0), 1)] = false.
 Proof. vm_compute. repeat split. Qed.
 
 (* the hypothesis of C12_once is needed: a merge replayed twice whose steps claim a single parent escapes the filter *)
